@@ -336,5 +336,163 @@ example : ∃ s', s'.length = (recipientString (List.replicate 32 0x42)).length 
     121, 121, 115, 106, 122, 103, 102, 113, 121, 121, 115, 106, 122, 103, 102, 112, 121, 113, 115, 106, 122, 103, 102,
     112, 121, 121, 115, 106, 122, 103, 102, 112, 113, 120, 107, 109, 56, 102, 52], by decide +kernel⟩
 
+/-! ## non-vacuity
+
+  For every theorem above that has hypotheses — or whose conjuncts are implications — concrete values
+  that meet all of them at once (the two whose hypotheses an `example` above already instantiates
+  completely, `reject_non_ascii` and `reject_mixed_case`, and `reject_nonzero_padding`, are not
+  repeated).  The key is 0x42…42 (32 bytes), whose strings are
+  "age1gfpyysjz…gfpqxkm8f4" (62 characters) and "AGE-SECRET-KEY-1GFPYYSJZ…GFPQ4EGAEX" (74 characters);
+  the plugin name is "Yubi" (mixed case, so that the lower-casing of the round trip is visible). -/
+
+/-- non-vacuity of `x25519_identity_roundtrip` (and once more of `x25519_recipient_roundtrip`): the key
+    0x42…42 has 32 bytes; its identity string is the 74 characters spelled out here -/
+theorem x25519_identity_roundtrip_nonvacuous :
+    (List.replicate 32 (0x42 : UInt8)).length = 32 ∧
+    identityString (List.replicate 32 0x42) =
+      [65, 71, 69, 45, 83, 69, 67, 82, 69, 84, 45, 75, 69, 89, 45, 49, 71, 70, 80, 89, 89, 83, 74, 90, 71, 70, 80, 89,
+       89, 83, 74, 90, 71, 70, 80, 89, 89, 83, 74, 90, 71, 70, 80, 89, 89, 83, 74, 90, 71, 70, 80, 89, 89, 83, 74, 90,
+       71, 70, 80, 89, 89, 83, 74, 90, 71, 70, 80, 81, 52, 69, 71, 65, 69, 88] := by decide +kernel
+
+example : parseX25519Identity (identityString (List.replicate 32 0x42)) = .ok (List.replicate 32 0x42) :=
+  x25519_identity_roundtrip _ x25519_identity_roundtrip_nonvacuous.1
+
+/-- non-vacuity of `plugin_recipient_roundtrip` and `plugin_identity_roundtrip` (same hypothesis): the name
+    "Yubi" is valid, and with the payload 01 02 03 neither encoder falls back to the empty string:
+    "age1yubi1qypqxy5utrs" and "AGE-PLUGIN-YUBI-1QYPQXPQSYGH" -/
+theorem plugin_recipient_roundtrip_nonvacuous :
+    validPluginName [0x59, 0x75, 0x62, 0x69] = true ∧
+    encodeRecipient [0x59, 0x75, 0x62, 0x69] [1, 2, 3] =
+      [97, 103, 101, 49, 121, 117, 98, 105, 49, 113, 121, 112, 113, 120, 121, 53, 117, 116, 114, 115] ∧
+    encodeIdentity [0x59, 0x75, 0x62, 0x69] [1, 2, 3] =
+      [65, 71, 69, 45, 80, 76, 85, 71, 73, 78, 45, 89, 85, 66, 73, 45, 49, 81, 89, 80, 81, 88, 80, 81, 83, 89, 71,
+       72] := by decide +kernel
+
+/-- non-vacuity of `plugin_identity_roundtrip`: the witness of `plugin_recipient_roundtrip_nonvacuous` -/
+theorem plugin_identity_roundtrip_nonvacuous : validPluginName [0x59, 0x75, 0x62, 0x69] = true :=
+  plugin_recipient_roundtrip_nonvacuous.1
+
+/-- both round trips at the witness: the name comes back as "yubi" -/
+example :
+    parseRecipient [97, 103, 101, 49, 121, 117, 98, 105, 49, 113, 121, 112, 113, 120, 121, 53, 117, 116, 114, 115] =
+      .ok ([0x79, 0x75, 0x62, 0x69], [1, 2, 3]) ∧
+    parseIdentity [65, 71, 69, 45, 80, 76, 85, 71, 73, 78, 45, 89, 85, 66, 73, 45, 49, 81, 89, 80, 81, 88, 80, 81, 83,
+      89, 71, 72] = .ok ([0x79, 0x75, 0x62, 0x69], [1, 2, 3]) := by
+  have h1 := plugin_recipient_roundtrip _ [1, 2, 3] plugin_recipient_roundtrip_nonvacuous.1
+  have h2 := plugin_identity_roundtrip _ [1, 2, 3] plugin_identity_roundtrip_nonvacuous
+  rw [plugin_recipient_roundtrip_nonvacuous.2.1] at h1
+  rw [plugin_recipient_roundtrip_nonvacuous.2.2] at h2
+  exact ⟨h1, h2⟩
+
+/-- non-vacuity of `parse_canonical`: each of its four premises holds for some string (necessarily four
+    different strings: the prefixes exclude one another) — the two native strings of 0x42…42 and the two
+    plugin strings of "yubi" / 01 02 03 -/
+theorem parse_canonical_nonvacuous :
+    parseX25519Recipient (recipientString (List.replicate 32 0x42)) = .ok (List.replicate 32 0x42) ∧
+    parseX25519Identity (identityString (List.replicate 32 0x42)) = .ok (List.replicate 32 0x42) ∧
+    parseRecipient [97, 103, 101, 49, 121, 117, 98, 105, 49, 113, 121, 112, 113, 120, 121, 53, 117, 116, 114, 115] =
+      .ok ([0x79, 0x75, 0x62, 0x69], [1, 2, 3]) ∧
+    parseIdentity [65, 71, 69, 45, 80, 76, 85, 71, 73, 78, 45, 89, 85, 66, 73, 45, 49, 81, 89, 80, 81, 88, 80, 81, 83,
+      89, 71, 72] = .ok ([0x79, 0x75, 0x62, 0x69], [1, 2, 3]) :=
+  ⟨x25519_recipient_roundtrip _ (by decide), x25519_identity_roundtrip _ (by decide), by decide +kernel,
+   by decide +kernel⟩
+
+/-- and its conclusion there: re-encoding the parsed name and payload gives the string back -/
+example : encodeIdentity [0x79, 0x75, 0x62, 0x69] [1, 2, 3] =
+    [65, 71, 69, 45, 80, 76, 85, 71, 73, 78, 45, 89, 85, 66, 73, 45, 49, 81, 89, 80, 81, 88, 80, 81, 83, 89, 71, 72] :=
+  (parse_canonical _).2.2.2 _ _ parse_canonical_nonvacuous.2.2.2
+
+/-- non-vacuity of `unique_spelling`: the premises of each conjunct hold with `s' = s` at the strings of
+    `parse_canonical_nonvacuous` — and, by the theorem itself, only with `s' = s` -/
+theorem unique_spelling_nonvacuous :
+    (∃ s s' k, parseX25519Recipient s = .ok k ∧ parseX25519Recipient s' = .ok k) ∧
+    (∃ s s' k, parseX25519Identity s = .ok k ∧ parseX25519Identity s' = .ok k) ∧
+    (∃ s s' r, parseRecipient s = .ok r ∧ parseRecipient s' = .ok r) ∧
+    (∃ s s' r, parseIdentity s = .ok r ∧ parseIdentity s' = .ok r) :=
+  ⟨⟨_, _, _, parse_canonical_nonvacuous.1, parse_canonical_nonvacuous.1⟩,
+   ⟨_, _, _, parse_canonical_nonvacuous.2.1, parse_canonical_nonvacuous.2.1⟩,
+   ⟨_, _, _, parse_canonical_nonvacuous.2.2.1, parse_canonical_nonvacuous.2.2.1⟩,
+   ⟨_, _, _, parse_canonical_nonvacuous.2.2.2, parse_canonical_nonvacuous.2.2.2⟩⟩
+
+/-- non-vacuity of `reject_wrong_prefix`: "bge1gfpyysjz…pq9wvy62", a *valid* Bech32 string (HRP "bge", payload
+    0x42…42) that starts with none of the three prefixes — so all four parsers refuse it for its prefix alone -/
+theorem reject_wrong_prefix_nonvacuous :
+    ∃ s, hasPrefix s pfxAge1 = false ∧ hasPrefix s pfxSecret1 = false ∧ hasPrefix s pfxPlugin = false ∧
+      decode s = .ok ([0x62, 0x67, 0x65], List.replicate 32 0x42) :=
+  ⟨[98, 103, 101, 49, 103, 102, 112, 121, 121, 115, 106, 122, 103, 102, 112, 121, 121, 115, 106, 122, 103, 102, 112,
+    121, 121, 115, 106, 122, 103, 102, 112, 121, 121, 115, 106, 122, 103, 102, 112, 121, 121, 115, 106, 122, 103, 102,
+    112, 121, 121, 115, 106, 122, 103, 102, 112, 113, 57, 119, 118, 121, 54, 50], by decide +kernel⟩
+
+/-- non-vacuity of `reject_wrong_length`: the strings of the 31-byte payload 0x42…42 under the two native HRPs
+    ("age1gfpyysjz…gg7enat4", 60 characters, and "AGE-SECRET-KEY-1GFPYYSJZ…GGEGVYQK", 72) decode, with the
+    right HRP, to 31 bytes — all four premises, the rejection being for the length alone -/
+theorem reject_wrong_length_nonvacuous :
+    ∃ s t, s.length ≠ 62 ∧ t.length ≠ 74 ∧
+      decode s = .ok (hrpAge, List.replicate 31 0x42) ∧ decode t = .ok (hrpSecret, List.replicate 31 0x42) ∧
+      (List.replicate 31 (0x42 : UInt8)).length ≠ 32 :=
+  ⟨[97, 103, 101, 49, 103, 102, 112, 121, 121, 115, 106, 122, 103, 102, 112, 121, 121, 115, 106, 122, 103, 102, 112,
+    121, 121, 115, 106, 122, 103, 102, 112, 121, 121, 115, 106, 122, 103, 102, 112, 121, 121, 115, 106, 122, 103, 102,
+    112, 121, 121, 115, 106, 122, 103, 103, 55, 101, 110, 97, 116, 52],
+   [65, 71, 69, 45, 83, 69, 67, 82, 69, 84, 45, 75, 69, 89, 45, 49, 71, 70, 80, 89, 89, 83, 74, 90, 71, 70, 80, 89, 89,
+    83, 74, 90, 71, 70, 80, 89, 89, 83, 74, 90, 71, 70, 80, 89, 89, 83, 74, 90, 71, 70, 80, 89, 89, 83, 74, 90, 71, 70,
+    80, 89, 89, 83, 74, 90, 71, 71, 69, 71, 86, 89, 81, 75], by decide +kernel⟩
+
+/-- non-vacuity of `accepted_padding`: the recipient string of 0x42…42 decodes (52 data symbols = 32 bytes and
+    four zero bits) -/
+theorem accepted_padding_nonvacuous :
+    decode (recipientString (List.replicate 32 0x42)) = .ok (hrpAge, List.replicate 32 0x42) := by
+  obtain ⟨s, _, h2, h3⟩ := decode_recipientString (List.replicate 32 0x42)
+  rw [h2]; exact h3
+
+/-- non-vacuity of `reject_surplus_padding`: HRP "age" and 54 zero symbols (270 bits = 33 bytes and six
+    surplus bits) with their checksum "y6p66v" -/
+theorem reject_surplus_padding_nonvacuous :
+    Assembled hrpAge (List.replicate 54 0) (List.replicate 54 0x71 ++ [121, 54, 112, 54, 54, 118]) ∧
+    5 * (List.replicate 54 (0 : UInt8)).length % 8 ≥ 5 := by
+  unfold Assembled
+  decide +kernel
+
+example : RejectedWith (hrpAge ++ 0x31 :: (List.replicate 54 0x71 ++ [121, 54, 112, 54, 54, 118]))
+    (· = .badPaddingIllegal) :=
+  reject_surplus_padding _ _ _ reject_surplus_padding_nonvacuous.1 reject_surplus_padding_nonvacuous.2
+
+/-- non-vacuity of `convertBits_inverse`: the premises of its first two conjuncts, at the bytes ff 01 80 and the
+    symbols 31 28 0 24 0 (three bytes = four symbols and four bits of a fifth) -/
+theorem convertBits_inverse_nonvacuous :
+    convertBits [0xff, 0x01, 0x80] 8 5 true = .ok [31, 28, 0, 24, 0] ∧
+    convertBits [31, 28, 0, 24, 0] 5 8 false = .ok [0xff, 0x01, 0x80] := by decide +kernel
+
+/-- non-vacuity of `polymod_xor_linear`: two three-symbol strings, the states 1 (the initial one) and
+    0x3b6a57b2 (the first generator constant) -/
+theorem polymod_xor_linear_nonvacuous :
+    ([1, 2, 3] : Bytes).length = ([4, 5, 6] : Bytes).length ∧ 1 < 2 ^ 30 ∧ 0x3b6a57b2 < 2 ^ 30 := by decide
+
+example : (xorBytes [1, 2, 3] [4, 5, 6]).foldl polymodStep (1 ^^^ 0x3b6a57b2) =
+    ([1, 2, 3] : Bytes).foldl polymodStep 1 ^^^ ([4, 5, 6] : Bytes).foldl polymodStep 0x3b6a57b2 :=
+  polymod_xor_linear _ _ _ _ polymod_xor_linear_nonvacuous.1 polymod_xor_linear_nonvacuous.2.1
+    polymod_xor_linear_nonvacuous.2.2
+
+/-- non-vacuity of `no_low_weight_codeword` (`NoLowWeight 4` is a chain of implications): an error pattern of
+    full length 58 and weight exactly 4 meets every premise; its syndrome is 266911701 -/
+theorem no_low_weight_codeword_nonvacuous :
+    ([1, 0, 2] ++ List.replicate 50 0 ++ [3, 0, 0, 0, 4] : Bytes).length ≤ 58 ∧
+    (∀ v ∈ ([1, 0, 2] ++ List.replicate 50 0 ++ [3, 0, 0, 0, 4] : Bytes), v.toNat < 32) ∧
+    weight ([1, 0, 2] ++ List.replicate 50 0 ++ [3, 0, 0, 0, 4]) ≤ 4 ∧
+    (∃ v ∈ ([1, 0, 2] ++ List.replicate 50 0 ++ [3, 0, 0, 0, 4] : Bytes), v ≠ 0) ∧
+    weight ([1, 0, 2] ++ List.replicate 50 0 ++ [3, 0, 0, 0, 4]) = 4 ∧
+    synSum ([1, 0, 2] ++ List.replicate 50 0 ++ [3, 0, 0, 0, 4]) = 266911701 := by decide +kernel
+
+/-- non-vacuity of `typo_rejected`, identity half (the recipient half is the `example` above): the identity
+    string of 0x42…42 with characters 20, 30, 40 and 50 replaced by `Q` -/
+theorem typo_rejected_nonvacuous :
+    (List.replicate 32 (0x42 : UInt8)).length = 32 ∧
+    ∃ s', s'.length = (identityString (List.replicate 32 0x42)).length ∧
+      s' ≠ identityString (List.replicate 32 0x42) ∧ hamming (identityString (List.replicate 32 0x42)) s' ≤ 4 ∧
+      hamming (identityString (List.replicate 32 0x42)) s' = 4 :=
+  ⟨by decide,
+   [65, 71, 69, 45, 83, 69, 67, 82, 69, 84, 45, 75, 69, 89, 45, 49, 71, 70, 80, 89, 81, 83, 74, 90, 71, 70, 80, 89, 89,
+    83, 81, 90, 71, 70, 80, 89, 89, 83, 74, 90, 81, 70, 80, 89, 89, 83, 74, 90, 71, 70, 81, 89, 89, 83, 74, 90, 71, 70,
+    80, 89, 89, 83, 74, 90, 71, 70, 80, 81, 52, 69, 71, 65, 69, 88], by decide +kernel⟩
+
 end Props.C09
 end AgeModel
